@@ -82,7 +82,7 @@ def run_config(run, cfg, seed, tag):
             if [e for e in log if e[0] in ("model", "loss")] or ret != {} or (sc.storage is not None and len(stored) != (0 if kw.get("update_storage") is False else 1)):
                 run.violation("first-observation", f"{tag}: first call must only seed the storage; log={log!r} ret={ret!r}", replay)
             continue
-        n_used = kw.get("n_inner_samples") or cfg["n_inner"]
+        n_used = kw.get("n_inner_samples") or sc.n_inner_now
         try:
             exp = ref.call(x, y, log, n_used)
         except Mismatch as m:
